@@ -213,7 +213,7 @@ def run(rep, work, tier, seed, props, replay=None):
     for i, msgs in sorted(viol, key=lambda x: len(builders[x[0]].stmts))[:8]:
         rep.violation({"kind": "view-gradient relation broken: " + msgs[0], "stmts": builders[i].stmts, "messages": msgs[:4]})
     bad_set = set(i for i, _ in viol)
-    ok_idx = [i for i, r in enumerate(results) if progs.exact_safe(r) and i not in bad_set]
+    ok_idx = [i for i, r in enumerate(results) if progs.exact_safe(r) and i not in bad_set and not getattr(builders[i], "explicit_const_views", False)]
     owner = lambda nm, o: not o["has_base"]
     terms = [progs.coq_fcase(builders[i], results[i], grad_filter=owner) for i in ok_idx]
     bad = []
